@@ -142,3 +142,47 @@ func (b *scalarReupload) Verify() {
 		}
 	}
 }
+
+// workItemIDs3D launches one 3-D work-group of 4 x 4 x Z work-items (Z = 8: two wavefronts, the second one starts
+// beyond the first XY plane) that stores x | y << 8 | z << 16 at out[z*16 + y*4 + x]: the hardware-initialised
+// work-item ids of every lane, on whatever platform runs it.
+type workItemIDs3D struct {
+	driver  *driver.Driver
+	context *driver.Context
+	gpus    []int
+	Z       int
+	out     []uint32
+}
+
+func newWorkItemIDs3D(d *driver.Driver, p map[string]int) *workItemIDs3D {
+	b := &workItemIDs3D{driver: d, Z: def(p, "z", 8)}
+	b.context = d.Init()
+	return b
+}
+
+func (b *workItemIDs3D) SelectGPU(gpus []int) { b.gpus = gpus }
+func (b *workItemIDs3D) SetUnifiedMemory()    {}
+
+func (b *workItemIDs3D) Run() {
+	b.driver.SelectGPU(b.context, b.gpus[len(b.gpus)-1])
+	n := 16 * b.Z
+	out := b.driver.AllocateMemory(b.context, uint64(4*n))
+	b.driver.MemCopyH2D(b.context, out, make([]uint32, n))
+	co := cuworld.DriverCodeObject3D(cuworld.LoadKernels("")["p1_workitem_ids_3d_4x4xZ"])
+	b.driver.LaunchKernel(b.context, co, [3]uint32{4, 4, uint32(b.Z)}, [3]uint16{4, 4, uint16(b.Z)}, &scalarReuploadArgs{Out: out})
+	b.out = make([]uint32, n)
+	b.driver.MemCopyD2H(b.context, b.out, out)
+}
+
+func (b *workItemIDs3D) Verify() {
+	for z := 0; z < b.Z; z++ {
+		for y := 0; y < 4; y++ {
+			for x := 0; x < 4; x++ {
+				i := z*16 + y*4 + x
+				if want := uint32(x | y<<8 | z<<16); b.out[i] != want {
+					log.Panicf("Mismatch at %d (work-item %d,%d,%d), expected %#x, but get %#x", i, x, y, z, want, b.out[i])
+				}
+			}
+		}
+	}
+}
